@@ -188,7 +188,8 @@ def add_updates(rng, c, k, names=None):
         which = names or ([rng.choice(present)] if rng.random() < 0.7 else
                           [n for n in present if rng.random() < 0.6] or [rng.choice(present)])
         u = {"set": {n: [g[n]() for _ in range(len(c[n]))] for n in which},
-             "order": rng.choice(["rp", "pr", "r", "p"])}
+             "order": rng.choice(["rp", "pr", "r", "p"]),
+             "mode": rng.choice(["assign", "assign", "augmented", "setitem", "inplace_fire"])}
         if rng.random() < 0.5:
             # a device/dtype move (a no-op conversion on this machine) on SOME object of the graph between the
             # previous read and this assignment: the model, a parameter holder, what the holder wraps, or a sibling
@@ -428,6 +429,24 @@ def run_impl(c):
         return ("ok", r.detach().double().reshape(-1, r.shape[-1]).tolist(),
                 p.detach().double().reshape(-1, p.shape[-1]).tolist(), meta)
 
+    def assign(holder, t, mode):
+        """the ways a user changes a parameter: a new tensor; augmented assignment on the property (`p.tensor *= 0;
+        p.tensor += t` hands the SAME tensor object back to the setter); item assignment followed by
+        `p.tensor = p.tensor`; in-place copy followed by fire_parameter_changed()"""
+        plain = type(holder).__name__ == "Parameter"
+        if mode == "assign" or not plain or not t.is_floating_point() or holder.tensor.shape != t.shape \
+                or holder.tensor.dtype != t.dtype:
+            holder.tensor = t
+        elif mode == "augmented":
+            holder.tensor *= 0.0
+            holder.tensor += t
+        elif mode == "setitem":
+            holder.tensor[...] = t
+            holder.tensor = holder.tensor
+        else:
+            holder.tensor.copy_(t)
+            holder.fire_parameter_changed()
+
     def do_move(obj, how):
         if how == "cpu":
             obj.cpu()
@@ -520,7 +539,7 @@ def run_impl(c):
                     if u.get("via") == "inner" and hasattr(pars[name], "x") and hasattr(pars[name], "transform"):
                         pars[name].x.tensor = pars[name].transform.inv(tens(name, v))  # the wrapped parameter itself
                     else:
-                        pars[name].tensor = tens(name, v)
+                        assign(pars[name], tens(name, v), u.get("mode", "assign") if c.get("grad") != "requires_grad" else "assign")
                 if u.get("srd06_y") and uses_srd06(c) and graph.get("dic"):
                     # the CLI layout: the simplex srd06.mu under the ConvexCombinationTransform is what moves
                     graph["dic"]["srd06.mu"].tensor = torch.tensor(u["srd06_y"], dtype=torch.float64)
@@ -847,7 +866,8 @@ def run(ck: Check):
                         ups = []
                         for n in present + [None]:
                             which = [n] if n else present
-                            ups.append({"set": {w: [g[w]() for _ in range(S)] for w in which}, "order": order})
+                            ups.append({"set": {w: [g[w]() for _ in range(S)] for w in which}, "order": order,
+                                        "mode": ("assign", "augmented", "setitem", "inplace_fire")[len(ups) % 4]})
                         ck.rng.shuffle(ups)
                         c["updates"] = ups
                         cases.append((c, "hgrid"))
